@@ -9,6 +9,8 @@ pub mod ffi_serde;
 pub mod primitives;
 pub mod vm;
 pub mod vm_ffi;
+#[cfg(mimium_verif)]
+pub mod verif_hooks;
 
 #[cfg(not(target_arch = "wasm32"))]
 pub mod wasm;
